@@ -39,7 +39,7 @@ ASSUMPTIONS = ["'unloading has completed' = the awaitable returned by overlay.un
                "the endpoint itself stays open (other overlays may use it); only the overlay's own sockets must be closed"]
 REACH = ["unload_with_pending_tasks", "unload_with_open_exit_transports", "unload_with_outstanding_caches", "late_datagrams_delivered",
          "register_after_unload_refused", "tm_duplicate_name_refused", "tm_replace_ordered", "tm_slow_cleanup", "scenario:tunnel", "scenario:dht",
-         "scenario:attestation", "scenario:identity", "scenario:multi", "scenario:service", "scenario:dhtcrawl", "scenario:bcast", "scenario:exitrace", "scenario:attest_slow", "create_sent_to_overlay_being_unloaded",
+         "scenario:attestation", "scenario:identity", "scenario:multi", "scenario:service", "scenario:dhtcrawl", "scenario:bcast", "scenario:exitrace", "scenario:attest_slow", "endpoint_wrapped_in_tunnel_endpoint", "tm_wall_clock_stepped", "create_sent_to_overlay_being_unloaded",
          "script_operation_abandoned_after_unload"]
 
 SCN = ["community", "bcast", "discovery", "dht", "dhtdiscovery", "tunnel", "hidden", "pex", "attestation", "attest_slow", "identity", "multi",
@@ -71,6 +71,10 @@ def cases(tier: str, base_seed: int):  # noqa: ANN201
         n += 1
         yield {"scenario": "service", "seed": base_seed + n, "knobs": {}, "node": (0, 2)[k % 2], "step": k % 3, "offset": off,
                "walk_interval": 12.0}
+    # the multiplexed node behind a TunnelEndpoint (what ipv8_service wraps the endpoint in as soon as one overlay asks for anonymity)
+    for step in range(STEPS["multi"]):
+        n += 1
+        yield {"scenario": "multi", "seed": base_seed + n, "knobs": {}, "node": 0, "step": step, "offset": 0.0, "ep_kind": "tunnel"}
     # several asynchronous handlers of one message type and one sender suspended at once (the application answers late)
     for off, rep in ((0.0, 2), (0.5, 3), (1.9, 2)):
         n += 1
@@ -95,14 +99,15 @@ def cases(tier: str, base_seed: int):  # noqa: ANN201
             continue
         scn = rng.choice(SCN[:-1] if (tier == "quick" or i % 3) else SCN)
         yield {"scenario": scn, "seed": seed, "node": 0 if scn == "dhtcrawl" else rng.randrange(4), "step": rng.randrange(STEPS[scn]),
-               "offset": rng.choice([0.0, 0.003, 0.05, 0.4, 3.0]),
+               "offset": rng.choice([0.0, 0.003, 0.05, 0.4, 3.0]), "ep_kind": rng.choice(["udp", "udp", "tunnel"]),
                "knobs": {"lat_jit": rng.choice([0.0, 0.05]), "loss": rng.choice([0.0, 0.0, 0.1]), "dup": rng.choice([0.0, 0.05]),
                          "timer_jitter": rng.choice([0.0, 0.001])}}
 
 
 def _tm_op(rng: random.Random) -> dict:
-    return {"op": rng.choice(["reg", "reg", "reg_delay", "reg_interval", "replace", "replace", "cancel", "advance", "dup"]),
-            "name": rng.choice(["a", "b"]), "d": rng.choice([0.0, 0.1, 0.5, 1.0]), "work": rng.choice([0.0, 0.2, 0.7]),
+    return {"op": rng.choice(["reg", "reg", "reg_delay", "reg_interval", "replace", "replace", "cancel", "advance", "dup", "dup",
+                              "wall_jump", "advance_long"]),
+            "name": rng.choice(["a", "b"]), "d": rng.choice([0.0, 0.1, 0.5, 1.0]), "work": rng.choice([0.0, 0.2, 0.7, 0.7, 2000.0]),
             "cleanup": rng.choice([0.0, 0.0, 0.0, 0.3])}
 
 
@@ -195,7 +200,12 @@ def run_tm(c: Case, case: dict) -> dict:  # noqa: C901
                 if tm.is_pending_task_active(name):
                     cancel_requested.update((name, x) for x in running[name])
                 tm.cancel_pending_task(name)
-            await asyncio.sleep(op["d"] if kind == "advance" else 0.0)
+            elif kind == "wall_jump":
+                # the wall clock steps forward by an hour (NTP correction, resume from suspend); nothing else happens
+                world.set_skew(None, world.skew.get(None, 0.0) + 3600.0)
+                world.fault("clock_jump")
+                world.probe("tm_wall_clock_stepped")
+            await asyncio.sleep(op["d"] if kind == "advance" else 700.0 if kind == "advance_long" else 0.0)
         await asyncio.sleep(case.get("tail", 5.0))
         await tm.shutdown_task_manager()
         tm_state["shutdown_done"] = True
@@ -237,6 +247,8 @@ def execute(case: dict) -> dict:  # noqa: C901, PLR0915
     scn = SCENARIOS[case["scenario"]]
     rng = world.stream("c11")
     world.probe("scenario:" + case["scenario"])
+    if case.get("ep_kind") == "tunnel" and case["scenario"] == "multi":
+        world.probe("endpoint_wrapped_in_tunnel_endpoint")
     st: dict = {"unloaded": False, "t": None, "captured": {}, "late": False}
     victim_ovs: list = []
 
